@@ -30,6 +30,9 @@ type Set struct {
 	Types           map[string]reflect.Type
 	NewWithDefaults map[string]func() any
 	Resources       map[string]ResourceEntry
+	// EmptyAsNil makes Build leave empty arrays / maps / bytes as nil slices and maps (the other half of the
+	// "nil and empty are the same value" clause).  Not safe to toggle while other goroutines build.
+	EmptyAsNil bool
 }
 
 func NewSet(name, schemaJSON string, types map[string]reflect.Type, nwd map[string]func() any) *Set {
@@ -89,19 +92,26 @@ func (s *Set) build(dst reflect.Value, t corpus.TypeExpr, v *model.Value) {
 				dst.SetString(v.S)
 			case "bytes":
 				if v.S == "" {
-					// nil and empty are the same value; build the empty (non-nil) form half of the time by content hash
-					dst.SetBytes([]byte{})
+					if !s.EmptyAsNil {
+						dst.SetBytes([]byte{})
+					}
 				} else {
 					dst.SetBytes([]byte(v.S))
 				}
 			}
 		case et.Array != nil:
+			if len(v.Elems) == 0 && s.EmptyAsNil {
+				return
+			}
 			sl := reflect.MakeSlice(dst.Type(), len(v.Elems), len(v.Elems))
 			for i, e := range v.Elems {
 				s.build(sl.Index(i), *et.Array, e)
 			}
 			dst.Set(sl)
 		case et.Map != nil:
+			if len(v.Entries) == 0 && s.EmptyAsNil {
+				return
+			}
 			m := reflect.MakeMapWithSize(dst.Type(), len(v.Entries))
 			for k, e := range v.Entries {
 				ev := reflect.New(dst.Type().Elem()).Elem()
